@@ -752,6 +752,25 @@ def panicafter(rep, c, sfx, reached_fns):
                         if kind(y) in ("Call", "MethodCall") and callee(y) in reached_fns:
                             ok = True
             if not ok:
+                # the same early exit written as nested ifs (`if empty { if reached { return Err(self) } }`): decided on
+                # the paths that reach the panic site - none of them has seen `reached` answer true, one has seen it false
+                try:
+                    reach = [ev for (ev, o) in PathEnum(b).paths() if any(e.node is x for e in ev)]
+                except hirq.TooManyPaths:
+                    reach = []
+                saw_false = saw_true = False
+                for ev in reach:
+                    for e in ev:
+                        if e.kind == "cond":
+                            cnd, truth = peel(e.node), bool(e.extra)
+                            while kind(cnd) == "Unary" and cnd.get("op") == "!":
+                                cnd, truth = peel(cnd["e"]), not truth
+                            if kind(cnd) in ("Call", "MethodCall") and callee(cnd) in reached_fns:
+                                if any(e2.node is x for e2 in ev[ev.index(e):]):
+                                    saw_true = saw_true or truth
+                                    saw_false = saw_false or not truth
+                ok = saw_false and not saw_true
+            if not ok:
                 r.violation(key, where(x),
                             "ParserState::%s can panic (%s) and does not look at the call-limit tracker first: after a "
                             "refused call absorbed by optional / repeat / look-ahead / choice (e.g. a skipped PUSH in "
